@@ -94,8 +94,8 @@ package io
 //@   ghost before return: pos(o) := o.off
 
 //@ func (*offsetReadSeeker).ReadAt
-//@   implements (io.ReaderAt).ReadAt except full_ok
-//@   note full_ok is not claimed: an empty read at a negative offset reports io.EOF
+//@   implements (io.ReaderAt).ReadAt except full_ok, at_end
+//@   note full_ok and at_end are not claimed: a read at a negative offset reports io.EOF
 //@   assume sane_origin: o.base >= 0
 
 //@ func (*offsetReadSeeker).ReadByte
